@@ -5,10 +5,10 @@
  *  id 3 a_static_bss  static long, zero
  *  id 4 a_dbl         double, initialised
  *  id 5 a_arr[0]      int[1024] initialised, first element
- *  id 6 a_arr[1023]   last element
- *  id 7 a_big_bss[0]            int[300000] zero (1.2 MB of .bss, far beyond the file-backed part of the data segment)
- *  id 8 a_big_bss[299999]
- *  id 9 a_big_bss[150000]
+ *  id 6 a_arr[C36_N_ARR - 1]   last element
+ *  id 7 a_big_bss[0]            int[C36_N_BIG] zero (6 kB .. 1.2 MB of .bss depending on C36_SCALE: beyond the file-backed part of the data segment)
+ *  id 8 a_big_bss[C36_N_BIG - 1]
+ *  id 9 a_big_bss[C36_N_BIG / 2]
  */
 #include "c36_vars.hpp"
 
@@ -17,8 +17,8 @@ int a_bss;
 static int a_static_init = 13;
 static long a_static_bss;
 double a_dbl = 1.5;
-int a_arr[1024] = {21, 22, 23};
-int a_big_bss[300000];
+int a_arr[C36_N_ARR] = {21, 22, 23};
+int a_big_bss[C36_N_BIG];
 int c36_sbuf[C36_NBUF] = {7, 7, 7};
 
 long long c36_get_a(int id)
@@ -30,10 +30,10 @@ long long c36_get_a(int id)
     case 3: return a_static_bss;
     case 4: return static_cast<long long>(a_dbl * 2);
     case 5: return a_arr[0];
-    case 6: return a_arr[1023];
+    case 6: return a_arr[C36_N_ARR - 1];
     case 7: return a_big_bss[0];
-    case 8: return a_big_bss[299999];
-    case 9: return a_big_bss[150000];
+    case 8: return a_big_bss[C36_N_BIG - 1];
+    case 9: return a_big_bss[C36_N_BIG / 2];
     default: return -999;
   }
 }
@@ -47,10 +47,23 @@ void c36_set_a(int id, long long v)
     case 3: a_static_bss = static_cast<long>(v); break;
     case 4: a_dbl = static_cast<double>(v) / 2; break;
     case 5: a_arr[0] = static_cast<int>(v); break;
-    case 6: a_arr[1023] = static_cast<int>(v); break;
+    case 6: a_arr[C36_N_ARR - 1] = static_cast<int>(v); break;
     case 7: a_big_bss[0] = static_cast<int>(v); break;
-    case 8: a_big_bss[299999] = static_cast<int>(v); break;
-    case 9: a_big_bss[150000] = static_cast<int>(v); break;
+    case 8: a_big_bss[C36_N_BIG - 1] = static_cast<int>(v); break;
+    case 9: a_big_bss[C36_N_BIG / 2] = static_cast<int>(v); break;
     default: break;
   }
+}
+
+long long c36_aget_a(int arr, long idx)
+{
+  return arr == 0 ? a_arr[idx] : a_big_bss[idx];
+}
+
+void c36_aset_a(int arr, long idx, long long v)
+{
+  if (arr == 0)
+    a_arr[idx] = static_cast<int>(v);
+  else
+    a_big_bss[idx] = static_cast<int>(v);
 }
